@@ -242,7 +242,7 @@ theorem gr_foldl_addS2 (cs : List Str) (svc : SUnit) :
 
 theorem grows_fromVolume (E : Env) (path : Str) (u svc : SUnit) (n : Str) (h : fromVolume E path u = .ok (svc, n)) :
     Grows (preService path u (s "Volume") (s "X-Volume")) svc := by
-  unfold fromVolume at h
+  unfold fromVolume volumeOpts at h
   simp only [bind_ok] at h
   obtain ⟨_, _, _, _, x, hx, svc1, hexec, hfin⟩ := h
   simp only [pure, Except.pure, Except.ok.injEq, Prod.mk.injEq] at hfin
